@@ -58,6 +58,7 @@ type ibtpOp struct {
 	tx      pb.Transaction
 	id      string
 	desc    string
+	poor    bool // sent by an account that cannot pay the fee: executed, then failed
 	// predictions
 	expectAccept bool
 	newStatus    int
@@ -92,6 +93,10 @@ type ibtpScenario struct {
 	router    interface {
 		GetInterchainTxWrappers(appchainID string, begin, end uint64, ch chan<- *pb.InterchainTxWrappers) error
 	}
+	// poorNext: the next request / receipt is sent by an account without funds: it is executed and then fails because the
+	// fee cannot be paid - a rejected IBTP like any other
+	poorNext bool
+	poorN    int
 	reqAccBefore, rcpAccBefore []uint64
 	// scratch statuses for prediction inside the block under construction
 }
@@ -188,9 +193,11 @@ func (s *ibtpScenario) addRequest(p int, idx uint64, timeout int64) {
 	proof := []byte("1")
 	ib := &pb.IBTP{From: pr.from, To: pr.to, Index: idx, TimeoutHeight: timeout, Proof: sim.ProofHash(proof), Type: pb.IBTP_INTERCHAIN}
 	op := &ibtpOp{kind: "req", pair: p, idx: idx, timeout: timeout, id: sim.IBTPID(pr.from, pr.to, idx)}
-	op.tx = s.w.IBTP(pr.srcKey, ib, proof)
+	op.tx = s.w.IBTP(s.senderFor(pr.srcKey), ib, proof)
 	req, _ := s.countersNow(p)
-	op.expectAccept = idx == req+1
+	op.expectAccept = idx == req+1 && !s.poorNext
+	op.poor = s.poorNext
+	s.poorNext = false
 	if op.expectAccept {
 		if pr.destOK {
 			op.newStatus = stBEGIN
@@ -208,11 +215,13 @@ func (s *ibtpScenario) addReceipt(p int, idx uint64, typ pb.IBTP_Type) {
 	proof := []byte("1")
 	ib := &pb.IBTP{From: pr.from, To: pr.to, Index: idx, Proof: sim.ProofHash(proof), Type: typ}
 	op := &ibtpOp{kind: "rcpt", pair: p, idx: idx, typ: typ, id: sim.IBTPID(pr.from, pr.to, idx)}
-	op.tx = s.w.IBTP(pr.dstKey, ib, proof)
+	op.tx = s.w.IBTP(s.senderFor(pr.dstKey), ib, proof)
 	_, rcp := s.countersNow(p)
 	st := s.statusNow(op.id)
 	ns, edge := receiptEdge(st, typ)
-	op.expectAccept = idx == rcp+1 && st >= 0 && edge
+	op.expectAccept = idx == rcp+1 && st >= 0 && edge && !s.poorNext
+	op.poor = s.poorNext
+	s.poorNext = false
 	op.newStatus = ns
 	op.desc = fmt.Sprintf("receipt(pair %d idx=%d %s) status-before=%s expect=%v", p, idx, typ.String(), stName[st], op.expectAccept)
 	s.cur = append(s.cur, op)
@@ -220,6 +229,15 @@ func (s *ibtpScenario) addReceipt(p int, idx uint64, typ pb.IBTP_Type) {
 	if m, ok := s.txs[op.id]; ok && isFinal(st) {
 		m.eventsPast++
 	}
+}
+
+// senderFor returns the ordinary sender, or a fresh account without funds when the next IBTP is to fail at the fee.
+func (s *ibtpScenario) senderFor(k *sim.Key) *sim.Key {
+	if !s.poorNext {
+		return k
+	}
+	s.poorN++
+	return sim.KeyFor(fmt.Sprintf("poor-ibtp-%d", s.poorN))
 }
 
 func (s *ibtpScenario) addTransfer() {
@@ -263,6 +281,9 @@ func (s *ibtpScenario) seal() *ibtpBlock {
 		}
 		if !rs[i].IsSuccess() {
 			continue
+		}
+		if op.poor {
+			s.fail("%s sent by an account without funds has a successful receipt", op.desc)
 		}
 		op.accepted = true
 		pr := s.pairs[op.pair]
